@@ -7,6 +7,7 @@ import (
 	"github.com/cronokirby/saferith"
 	"github.com/taurusgroup/multi-party-sig/internal/round"
 	"github.com/taurusgroup/multi-party-sig/pkg/math/curve"
+	"github.com/taurusgroup/multi-party-sig/pkg/paillier"
 	"github.com/taurusgroup/multi-party-sig/pkg/party"
 	"github.com/taurusgroup/multi-party-sig/verifharness/adv"
 	"github.com/taurusgroup/multi-party-sig/verifharness/conv"
@@ -16,6 +17,38 @@ import (
 // Deviations are the state-level deviations of a presigner named by C04: the cheater follows the
 // protocol (all its individual proofs are honest proofs of what it sends) except for one inconsistency.
 var Deviations = []string{"gamma-for-delta", "k-for-shares", "x-for-chi", "delta-share", "chi-share-after-mta", "sigma-share"}
+
+// CiphertextDeviations: ONE Paillier ciphertext of ONE direct message is replaced by a well-formed ciphertext of the
+// plaintext plus one (homomorphically, under the recipient's or the sender's key). Unlike a wire-level alteration of
+// the ciphertext bytes the result decrypts to an in-range value, so only the check that is really about the VALUE can
+// notice it (keygen: the VSS check of the received share; MtA: the affine-operation proof).
+var KeygenCiphertextDeviations = []string{"ct+1:Share:recipient"}
+var MtACiphertextDeviations = []string{"ct+1:DeltaD:recipient", "ct+1:DeltaF:sender", "ct+1:ChiD:recipient", "ct+1:ChiF:sender"}
+
+// CiphertextDeviationsFor lists the ciphertext deviations that exist in a CMP protocol (presign carries its D
+// ciphertexts in a broadcast map, which this deviation does not touch).
+func CiphertextDeviationsFor(p string) []string {
+	switch {
+	case strings.HasSuffix(p, "keygen") || strings.HasSuffix(p, "refresh"):
+		return KeygenCiphertextDeviations
+	case strings.Contains(p, "presign-online"):
+		return nil
+	case strings.Contains(p, "presign"):
+		return []string{"ct+1:DeltaF:sender", "ct+1:ChiF:sender"}
+	}
+	return MtACiphertextDeviations
+}
+
+func paillierKeys(r round.Session) map[party.ID]*paillier.PublicKey {
+	for _, name := range []string{"PaillierPublic", "Paillier"} {
+		if f, ok := adv.Field(r, name); ok {
+			if m, ok := f.Interface().(map[party.ID]*paillier.PublicKey); ok {
+				return m
+			}
+		}
+	}
+	return nil
+}
 
 func addInt(v reflect.Value, d int64) {
 	old := v.Interface().(*saferith.Int)
@@ -50,6 +83,36 @@ func deviation(name string) (*adv.Hooks, *int) {
 				*hits++
 			}
 		}
+	}
+	if strings.HasPrefix(name, "ct+1:") {
+		parts := strings.Split(name, ":")
+		field, whose := parts[1], parts[2]
+		h.Content = func(r round.Session, msg *round.Message) {
+			if *hits > 0 || msg.Broadcast || msg.To == "" {
+				return
+			}
+			f, ok := adv.Field(msg.Content, field)
+			if !ok {
+				return
+			}
+			ct, ok := f.Interface().(*paillier.Ciphertext)
+			keys := paillierKeys(r)
+			if !ok || ct == nil || keys == nil {
+				return
+			}
+			owner := msg.To
+			if whose == "sender" {
+				owner = r.SelfID()
+			}
+			pk := keys[owner]
+			if pk == nil {
+				return
+			}
+			one, _ := pk.Enc(new(saferith.Int).SetUint64(1))
+			f.Set(reflect.ValueOf(ct.Clone().Add(pk, one)))
+			*hits++
+		}
+		return h, hits
 	}
 	switch name {
 	case "gamma-for-delta":
